@@ -1,10 +1,284 @@
 import PhysisModel.Base.Proto
+import PhysisModel.Base.Half
+import PhysisModel.Model.Shpk
+import PhysisModel.Spec.Shpk
+import PhysisModel.Spec.ShpkText
+import PhysisModel.Spec.Crc32
+import PhysisModel.Model.Mtrl
+import PhysisModel.Spec.Mtrl
+import PhysisModel.Spec.MtrlText
+/-!
+Driver of C14.  Ops:
+
+* `sel k1,k2,…` — `build_selector`;  `selall sys scn mat sub` — `build_selector_from_all_keys`
+* `shcrc <hex>` — `ShaderPackage::crc`
+* `half h1,h2,…` — `f16::to_f32` bit patterns (ties `Base/Half.lean` to the `half` crate)
+* `shpk key=value …` — a stored shader package (`Spec.Shpk.PackageF`), encoded here by
+  `Spec.Shpk.encode`; `q=` lists the selectors passed to `find_node`
+* `mtrl key=value …` — a stored material, encoded by `Spec.Mtrl.encode`
+-/
 namespace Physis.Driver.C14
-open Physis Physis.Proto
+open Physis Physis.Proto Physis.MsCommon
+open Physis.Spec.Shpk
+
+/-! ### case-line parsing helpers (reject, never default) -/
+
+def splitList (sep : String) (s : String) : List String :=
+  if s == "-" then [] else s.splitOn sep
+
+def pU32 (s : String) : Option UInt32 := do
+  let n ← s.toNat?
+  if n < 4294967296 then some (UInt32.ofNat n) else none
+def pU16 (s : String) : Option UInt16 := do
+  let n ← s.toNat?
+  if n < 65536 then some (UInt16.ofNat n) else none
+def pU8 (s : String) : Option UInt8 := do
+  let n ← s.toNat?
+  if n < 256 then some (UInt8.ofNat n) else none
+
+def pU32s (s : String) : Option (List UInt32) := (splitList "," s).mapM pU32
+def pU16s (s : String) : Option (List UInt16) := (splitList "," s).mapM pU16
+
+/-- `key=value` fields of a case line into an association list -/
+def kvs (fs : List String) : Option (List (String × String)) :=
+  fs.mapM fun f => match f.splitOn "=" with
+    | [k, v] => some (k, v)
+    | _ => none
+
+def get (m : List (String × String)) (k : String) : Option String := m.lookup k
+
+/-! ### shader packages -/
+
+def pParam (s : String) : Option ParamF :=
+  match s.splitOn ":" with
+  | [id, off, len, unk, slot, size] => do
+    pure { id := ← pU32 id, strOff := ← pU32 off, strLen := ← pU16 len, unknown := ← pU16 unk,
+           slot := ← pU16 slot, size := ← pU16 size }
+  | _ => none
+def pParams (s : String) : Option (List ParamF) := (splitList "," s).mapM pParam
+
+def pShader (s : String) : Option ShaderF :=
+  match s.splitOn "/" with
+  | [d, n, a, b, c, e] => do
+    pure { dataOffset := ← pU32 d, dataSize := ← pU32 n, scalars := ← pParams a,
+           resources := ← pParams b, uavs := ← pParams c, textures := ← pParams e }
+  | _ => none
+def pShaders (s : String) : Option (List ShaderF) := (splitList ";" s).mapM pShader
+
+def pKey (s : String) : Option Key :=
+  match s.splitOn ":" with
+  | [a, b] => do pure { id := ← pU32 a, defaultValue := ← pU32 b }
+  | _ => none
+def pKeys (s : String) : Option (List Key) := (splitList "," s).mapM pKey
+
+def pPass (s : String) : Option Pass :=
+  match s.splitOn ":" with
+  | [a, b, c] => do pure { id := ← pU32 a, vertexShader := ← pU32 b, pixelShader := ← pU32 c }
+  | _ => none
+
+def pAlias (s : String) : Option NodeAlias :=
+  match s.splitOn ":" with
+  | [a, b] => do pure { selector := ← pU32 a, node := ← pU32 b }
+  | _ => none
+
+def pMatParam (s : String) : Option MaterialParameter :=
+  match s.splitOn ":" with
+  | [a, b, c] => do pure { id := ← pU32 a, byteOffset := ← pU16 b, byteSize := ← pU16 c }
+  | _ => none
+
+def pNode (s : String) : Option NodeF :=
+  match s.splitOn "/" with
+  | [sel, idx, a, b, c, d, ps] => do
+    pure { selector := ← pU32 sel, passIndices := ← Bytes.ofHex idx, systemKeys := ← pU32s a,
+           sceneKeys := ← pU32s b, materialKeys := ← pU32s c, subviewKeys := ← pU32s d,
+           passes := ← (splitList "," ps).mapM pPass }
+  | _ => none
+
+def pPackage (m : List (String × String)) : Option PackageF := do
+  let sv ← pU32s (← get m "sv")
+  let (sv1, sv2) ← (match sv with | [a, b] => some (a, b) | _ => none)
+  pure {
+    version := ← pU32 (← get m "ver"), format := ← Bytes.ofHex (← get m "fmt")
+    fileLength := ← pU32 (← get m "flen"), materialParametersSize := ← pU32 (← get m "mps")
+    hasMatParamDefaults := ← pU16 (← get m "hd")
+    unknown1 := ← pU16 (← get m "u1"), unknown2 := ← pU16 (← get m "u2")
+    vertexShaders := ← pShaders (← get m "vs"), pixelShaders := ← pShaders (← get m "ps")
+    materialParameters := ← (splitList "," (← get m "mp")).mapM pMatParam
+    matParamDefaults := ← pU32s (← get m "def")
+    scalars := ← pParams (← get m "sc"), samplers := ← pParams (← get m "sa")
+    textures := ← pParams (← get m "tx"), uavs := ← pParams (← get m "ua")
+    systemKeys := ← pKeys (← get m "sk"), sceneKeys := ← pKeys (← get m "ck")
+    materialKeys := ← pKeys (← get m "mk")
+    subViewKey1Default := sv1, subViewKey2Default := sv2
+    nodes := ← (splitList ";" (← get m "nodes")).mapM pNode
+    aliases := ← (splitList "," (← get m "al")).mapM pAlias
+    blob := ← Bytes.ofHex (← get m "blob"), strings := ← Bytes.ofHex (← get m "str") }
+
+def showFind (r : Except Err (Option Nat)) : String :=
+  match r with
+  | .ok none => "none"
+  | .ok (some i) => toString i
+  | .error .panic => "panic"
+  | .error .fail => "none"
+
+/-- expected `find_node` answer from the specification -/
+def specFind (p : ShaderPackage) (sel : UInt32) : String :=
+  match resolve p.nodes p.nodeAliases sel with
+  | none => "none"
+  | some i => if i < p.nodes.length then toString i else "panic"
+
+def handleShpk (fs : List String) : String :=
+  match kvs fs with
+  | none => bad
+  | some m =>
+    match pPackage m, (get m "q").bind pU32s with
+    | some f, some qs =>
+      if !WF f then bad else
+      let file := encode f
+      let v := view f
+      let expected := render v ++ ";find=" ++ brk "," (qs.map (specFind v))
+      let model := match Shpk.fromExisting file with
+        | .ok p => render p ++ ";find=" ++ brk "," (qs.map fun q => showFind (Shpk.findNodeIdx p q))
+        | .error .fail => "none"
+        | .error .panic => "panic"
+      answer ("shpk " ++ Bytes.toHex file ++ " " ++ showNatList (qs.map (·.toNat))) expected [] (some model)
+    | _, _ => bad
+
+/-! ### materials -/
+
+namespace M
+open Physis.Spec.Mtrl
+
+/-- big-endian hex words (`3c00` = 1.0) -/
+def pWords (s : String) : Option (List UInt16) := do
+  let bs ← Bytes.ofHex s
+  let rec go : Bytes → Option (List UInt16)
+    | [] => some []
+    | [_] => none
+    | a :: b :: r => (go r).map ((a.toUInt16 <<< 8 ||| b.toUInt16) :: ·)
+  go bs
+
+def pBits (s : String) (n : Nat) : Option (List Bool) :=
+  let cs := s.toList
+  if cs.length = n && cs.all (fun c => c == '0' || c == '1') then some (cs.map (· == '1')) else none
+
+def pColorSet (s : String) : Option ColorSetF :=
+  match s.splitOn ":" with
+  | [a, b] => do pure { nameOffset := ← pU16 a, index := ← pU16 b }
+  | _ => none
+
+def pColorTable (s : String) : Option ColorTableF :=
+  if s == "none" then some .absent
+  else if s == "opaque" then some .opaque
+  else match s.splitOn ":" with
+    | ["L", rows] => (splitList "/" rows).mapM pWords |>.map .legacy
+    | ["D", rows] => (splitList "/" rows).mapM pWords |>.map .dawntrail
+    | _ => none
+
+def pLegacyDye (s : String) : Option LegacyColorDyeTableRow :=
+  match s.splitOn "." with
+  | [t, bits] => do
+    match ← pBits bits 5 with
+    | [a, b, c, d, e] => pure { template := ← pU16 t, diffuse := a, specular := b, emissive := c, gloss := d,
+                                specularStrength := e }
+    | _ => none
+  | _ => none
+
+def pDawntrailDye (s : String) : Option DawntrailDyeF :=
+  match s.splitOn "." with
+  | [t, ch, bits, spare] => do
+    match ← pBits bits 12 with
+    | [a, b, c, d, e, f, g, h, i, j, k, l] =>
+      pure { row := { template := ← pU16 t, channel := ← pU8 ch, diffuse := a, specular := b, emissive := c
+                      scalar3 := d, metalness := e, roughness := f, sheenRate := g, sheenTintRate := h
+                      sheenAperture := i, anisotropy := j, sphereMapIndex := k, sphereMapMask := l }
+             spare := ← pU32 spare }
+    | _ => none
+  | _ => none
+
+def pDyeTable (s : String) : Option DyeTableF :=
+  if s == "none" then some .absent
+  else if s == "opaque" then some .opaque
+  else match s.splitOn ":" with
+    | ["L", rows] => (splitList "," rows).mapM pLegacyDye |>.map .legacy
+    | ["D", rows] => (splitList "," rows).mapM pDawntrailDye |>.map .dawntrail
+    | _ => none
+
+def pShaderKey (s : String) : Option ShaderKey :=
+  match s.splitOn ":" with
+  | [a, b] => do pure { category := ← pU32 a, value := ← pU32 b }
+  | _ => none
+
+def pConstant (s : String) : Option ConstantF :=
+  match s.splitOn ":" with
+  | [a, b, c] => do pure { constantId := ← pU32 a, valueOffset := ← pU16 b, valueSize := ← pU16 c }
+  | _ => none
+
+def pSampler (s : String) : Option Sampler :=
+  match s.splitOn ":" with
+  | [u, fl, a, b, c, d] => do
+    pure { textureUsage := ← u.toNat?, flags := ← pU32 fl, textureIndex := ← pU8 a, unknown1 := ← pU8 b
+           unknown2 := ← pU8 c, unknown3 := ← pU8 d }
+  | _ => none
+
+def pMaterial (m : List (String × String)) : Option MaterialF := do
+  pure {
+    version := ← pU32 (← get m "ver"), fileSize := ← pU16 (← get m "fsz"), dataSetSize := ← pU16 (← get m "dss")
+    textures := ← (splitList ";" (← get m "tex")).mapM (fun t => if t == "e" then some [] else Bytes.ofHex t)
+    heapRest := ← Bytes.ofHex (← get m "rest")
+    shaderPackageNameOffset := ← pU16 (← get m "spo")
+    textureOffsets := ← pU32s (← get m "offs")
+    uvSets := ← (splitList "," (← get m "uv")).mapM pColorSet
+    colorSets := ← (splitList "," (← get m "cs")).mapM pColorSet
+    tableFlags := ← pU32 (← get m "tf"), additionalRest := ← Bytes.ofHex (← get m "ar")
+    colorTable := ← pColorTable (← get m "ct"), dyeTable := ← pDyeTable (← get m "dye")
+    shaderValueListSize := ← pU16 (← get m "svs"), materialFlags := ← pU32 (← get m "mf")
+    shaderKeys := ← (splitList "," (← get m "keys")).mapM pShaderKey
+    constants := ← (splitList "," (← get m "const")).mapM pConstant
+    samplers := ← (splitList "," (← get m "samp")).mapM pSampler
+    shaderValues := ← pU32s (← get m "vals"), trailing := ← Bytes.ofHex (← get m "trail") }
+
+def handleMtrl (fs : List String) : String :=
+  match kvs fs with
+  | none => bad
+  | some m =>
+    match pMaterial m with
+    | some f =>
+      if !WF f then bad else
+      let file := encode f
+      let model := match Mtrl.fromExisting file with
+        | .ok p => render p
+        | .error .fail => "none"
+        | .error .panic => "panic"
+      answer ("mtrl " ++ Bytes.toHex file) (render (view f)) [] (some model)
+    | none => bad
+
+end M
 
 /-- one case line in, one answer line out (see `Base/Proto.lean`) -/
 def handle (line : String) : String :=
   match fields line with
+  | ["sel", ks] =>
+    match pU32s ks with
+    | some ks => answer "=" (n32 (selectorOf ks)) [] (some (n32 (Shpk.buildSelector ks)))
+    | none => bad
+  | ["selall", a, b, c, d] =>
+    match pU32s a, pU32s b, pU32s c, pU32s d with
+    | some a, some b, some c, some d =>
+      answer "=" (n32 (selectorOf [selectorOf a, selectorOf b, selectorOf c, selectorOf d])) []
+        (some (n32 (Shpk.buildSelectorFromAllKeys a b c d)))
+    | _, _, _, _ => bad
+  | ["shcrc", h] =>
+    match Bytes.ofHexFast h with
+    | some bs => answer "=" (n32 (Spec.Crc32.crcBitwise 0 0 bs)) []
+        (some (n32 (Shpk.crc Spec.Crc32.zlibCrc32 bs)))
+    | none => bad
+  | ["half", hs] =>
+    match pU16s hs with
+    | some hs => answer "=" (showNatList (hs.map fun h => (halfToF32 h).toNat))
+    | none => bad
+  | "shpk" :: rest => handleShpk rest
+  | "mtrl" :: rest => M.handleMtrl rest
   | _ => bad
 
 end Physis.Driver.C14
